@@ -4,8 +4,8 @@ import (
 	"fmt"
 	"go/types"
 	"os"
-	"sort"
 	"regexp"
+	"sort"
 	"strconv"
 	"strings"
 
@@ -15,7 +15,7 @@ import (
 // rulePrefix: C08 / C09 obligations on prefix.(*Handler).Handle.
 func rulePrefix(c *Ctx, prefix string, want map[string]bool) {
 	fn := c.P.Func("plugins/prefix", "*Handler", "Handle")
-	addP := c.P.Func("plugins/prefix", "", "addPrefix")
+	addP := c.P.Anchor("addPrefix")
 	if fn == nil || addP == nil {
 		c.R.Fatalf("ANCHOR-UNRESOLVED: prefix.(*Handler).Handle / addPrefix")
 		return
@@ -25,7 +25,7 @@ func rulePrefix(c *Ctx, prefix string, want map[string]bool) {
 	info := InfoOf(fn)
 	ex := NewExplorer(c.P, c.Pure, fn)
 	inner := `invoke:` + reQ(pkgDHCP6) + `\.DHCPv6\.GetInnerMessage\(\$1\)#0`
-	keyC := reQ(modPath) + `/plugins/prefix\.recordKey\(\(` + reQ(pkgDHCP6) + `\.MessageOptions\)\.ClientID\(` + inner + `\.Options\)\)`
+	keyC := reQ(modPath) + `/plugins/prefix\.` + an("recordKey") + `\(\(` + reQ(pkgDHCP6) + `\.MessageOptions\)\.ClientID\(` + inner + `\.Options\)\)`
 	knownRe := `\$0\.Records\[` + keyC + `\]`
 	allocRe := `invoke:` + reQ(modPath) + `/plugins/allocators\.Allocator\.Allocate@(?:[\w$]+·)?t\d+\(\$0\.allocator,.*\)`
 	bad := map[string][]string{}
@@ -198,7 +198,7 @@ func rulePrefix(c *Ctx, prefix string, want map[string]bool) {
 					addb("PD.FRESH", fmt.Sprintf("a known lease that expires too early is handed back at %s without being extended", c.P.InstrPos(in)))
 				}
 				// EXACT / EMPTY: why is this lease reused?
-				same, _ := histFact(st, "bool", regexp.MustCompile(`^`+reQ(modPath)+`/plugins/prefix\.samePrefix\(.*\.Prefix,&`+reQ(elem)+`\.Prefix\)$`))
+				same, _ := histFact(st, "bool", regexp.MustCompile(`^`+reQ(modPath)+`/plugins/prefix\.`+an("samePrefix")+`\(.*\.Prefix,&`+reQ(elem)+`\.Prefix\)$`))
 				taken, _ := histFact(st, "bool", regexp.MustCompile(`^\(\*`+reQ(pkgBitset)+`\.BitSet\)\.Test\(.*,conv<uint>\(`+reQ(j)+`\)\)$`))
 				if same != 1 && taken != 0 {
 					addb("KEEP.EXACT", fmt.Sprintf("a known lease is reused at %s neither because it equals the hinted prefix nor as a not-yet-given lease for an empty hint", c.P.InstrPos(in)))
@@ -397,7 +397,7 @@ func rulePrefix(c *Ctx, prefix string, want map[string]bool) {
 		if !regexp.MustCompile(`^time\.Until(@(?:[\w$]+·)?t\d+)?\(.*\.Expire\)$`).MatchString(vl) {
 			addb("PD.LIFETIME", "the lifetime is not the time remaining until the lease's expiry: "+shortName(stripAt(vl)))
 		}
-		if !strings.Contains(pv, "plugins/prefix.dup") || !strings.Contains(pv, ".Prefix") {
+		if !strings.Contains(pv, "plugins/prefix."+anRaw("dup")) || !strings.Contains(pv, ".Prefix") {
 			addb("PD.PROVENANCE", "the delegated prefix is not (a copy of) the lease's prefix: "+shortName(stripAt(pv)))
 		}
 	}
